@@ -64,8 +64,8 @@ def run_check(pid, module, tier, seed, replay=None):
         module.run(ctx)
         floors = getattr(module, 'FLOORS', {})
         counts = {}
-        for o in ctx.obs:
-            counts[o.rule] = counts.get(o.rule, 0) + 1
+        for k in {(o.rule, o.key) for o in ctx.obs}:
+            counts[k[0]] = counts.get(k[0], 0) + 1
         for rule, fl in floors.items():
             if counts.get(rule, 0) < fl:
                 raise Broken('rule %s examined %d instances, below the floor %d counted on the reviewed tree '
